@@ -99,6 +99,46 @@ impl Monitor for M {
     fn case(&mut self, ctx: &mut Ctx) {
         let light = ctx.light();
         let be = ctx.rng.chance(1, 2);
+        if !light && ctx.index % 4001 == 77 {
+            // a list of about a million one-byte signals, payload exact and one byte short: linear code decodes
+            // or refuses it in a fraction of a second; work that grows with the square of the list length runs
+            // into the progress watchdog (thread CPU time per case)
+            ctx.obs("lists.about_a_million_types");
+            let n = ctx.rng.range(600_000, 1_200_000) as usize;
+            let kinds = [TypeInfoKind::Bool, TypeInfoKind::Unsigned(TypeLength::BitLength8), TypeInfoKind::Signed(TypeLength::BitLength8)];
+            let ts: Vec<TypeInfo> = (0..n)
+                .map(|k| TypeInfo { kind: kinds[k % 3].clone(), coding: StringCoding::ASCII, has_variable_info: false, has_trace_info: false })
+                .collect();
+            let data = ctx.rng.bytes(n);
+            let endianness = if be { Endianness::Big } else { Endianness::Little };
+            let detail = |got: String| J::obj().set("types", format!("{} one-byte signals (bool, u8, i8 in turn)", n)).set("payload_len", data.len()).set("got", got);
+            ctx.eval();
+            match guarded(|| construct_arguments(endianness, &ts, &data[..n - 1]).map(|a| a.len())) {
+                Err(p) => ctx.panic_violation("no_panic", &p, || detail("panic".into())),
+                Ok(Ok(k)) => ctx.violation("must_refuse", "huge_list_one_byte_short", || detail(format!("Ok with {} arguments", k))),
+                Ok(Err(_)) => ctx.obs("refused.huge_list_one_byte_short"),
+            }
+            ctx.eval();
+            match guarded(|| construct_arguments(endianness, &ts, &data)) {
+                Err(p) => ctx.panic_violation("no_panic", &p, || detail("panic".into())),
+                Ok(Err(e)) => ctx.violation("must_succeed", "huge_list_exact", || detail(format!("{:?}", e))),
+                Ok(Ok(args)) => {
+                    let ok = args.len() == n
+                        && [0usize, 1, 2, n / 2, n - 3, n - 2, n - 1].iter().all(|&k| match (&args[k].value, k % 3) {
+                            (Value::Bool(v), 0) => *v == data[k],
+                            (Value::U8(v), 1) => *v == data[k],
+                            (Value::I8(v), 2) => *v == data[k] as i8,
+                            _ => false,
+                        });
+                    if ok {
+                        ctx.obs("ok.huge_list_exact");
+                    } else {
+                        ctx.violation("value_in_order", "huge_list", || detail(format!("{} arguments", args.len())));
+                    }
+                }
+            }
+            return;
+        }
         let with_fixed = ctx.rng.chance(1, 10);
         // type list: systematic single-kind lists for the first indices, then random lists
         let supported: Vec<TypeInfoKind> = ALL_KINDS
